@@ -58,6 +58,7 @@ def ref(matrix, rates, times, centers, widths, scales, backsweep, backsweep_peri
 
 def r1(ctx) -> None:
     repo = ctx.repo
+    lib.check_no_loop_escape(ctx, "C05-R1", ("glotaran/builtin/megacomplexes/decay/", "glotaran/model/irf.py"), 3)
     f = ctx.fn(DUT, "decay_matrix_implementation_index_dependent")
     fl = lib.flow(f, repo)
     loops = [n for n in lib.nodes(f, ast.For)]
@@ -196,6 +197,7 @@ def r2(ctx) -> None:
 
 def r3(ctx) -> None:
     repo = ctx.repo
+    lib.check_no_overflowing_exp(ctx, "C05-R3", [fi for fi in repo.functions.values() if fi.rel in (GIRF, DUT)], 3)
     f = ctx.fn(GIRF, "calculate_decay_matrix_gaussian_irf_on_index")
     fl = lib.flow(f, repo)
     rf = ref_flow(repo, REF_KERNEL, "ref")
